@@ -98,6 +98,7 @@ last_estate_ptr(other.last_estate_ptr)
 {
   sys.params=this;
   other.is_init=false; //other is no longer usable, since we stole its contents
+  SQUIDS_VERIF_EVENT("sq.movector",this,&other,0,0);
 }
 
 void SQuIDS::ini(unsigned int n, unsigned int nsu, unsigned int nrh, unsigned int nsc, double ti){
@@ -157,6 +158,7 @@ void SQuIDS::ini(unsigned int n, unsigned int nsu, unsigned int nrh, unsigned in
   last_estate_ptr=nullptr;
 
   is_init=true;
+  SQUIDS_VERIF_EVENT("sq.ini",this,system.get(),nx*size_state,0);
 };
 
 void SQuIDS::set_system_pointers(double* sp, double* dp){
@@ -178,6 +180,11 @@ void SQuIDS::set_system_pointers(double* sp, double* dp){
     }
     last_dstate_ptr=dp;
   }
+  //report where the in-step views actually point after (not) rebinding
+  SQUIDS_VERIF_EVENT("sq.bind",this,sp,0,0);
+  SQUIDS_VERIF_EVENT("sq.bind.e",this,(nx&&nrhos)?&(estate[0].rho[0][0]):nullptr,0,0);
+  SQUIDS_VERIF_EVENT("sq.bind.d",this,(nx&&nrhos)?&(dstate[0].rho[0][0]):nullptr,(long)(dp!=nullptr),0);
+  SQUIDS_VERIF_EVENT("sq.bind.dp",this,dp,0,0);
 }
 
 SQuIDS::~SQuIDS(){}
@@ -220,6 +227,7 @@ SQuIDS& SQuIDS::operator=(SQuIDS&& other){
   last_estate_ptr=other.last_estate_ptr;
   sys.params=this;
   other.is_init=false; //other is no longer usable, since we stole its contents
+  SQUIDS_VERIF_EVENT("sq.moveassign",this,&other,0,0);
   
   return(*this);
 }
@@ -462,6 +470,7 @@ double SQuIDS::Get_NumSteps() const{
 }
 
 void SQuIDS::Derive(double at){
+  SQUIDS_VERIF_EVENT("sq.derive",this,&at,0,0);
   t=at;
   PreDerive(at);
   for(unsigned int ei = 0; ei < nx; ei++){
@@ -504,6 +513,7 @@ void SQuIDS::Evolve(double dt){
     gsl_odeiv2_driver_set_nmax(d,0);
     
     double* gsl_sys = system.get();
+    SQUIDS_VERIF_EVENT("sq.evolve.start",this,gsl_sys,1,sys.params==this);
     
     if(adaptive_step){
       gsl_status = gsl_odeiv2_driver_apply(d, &t, t+dt, gsl_sys);
@@ -512,6 +522,7 @@ void SQuIDS::Evolve(double dt){
     }
     
     gsl_odeiv2_driver_free(d);
+    SQUIDS_VERIF_EVENT("sq.evolve.driverfreed",this,gsl_sys,gsl_status,0);
     if( gsl_status != GSL_SUCCESS ){
       throw std::runtime_error("SQUIDS::Evolve: Error in GSL ODE solver ("
                                +std::string(gsl_strerror(gsl_status))+")");
@@ -524,9 +535,12 @@ void SQuIDS::Evolve(double dt){
       if(nscalars>0)
         estate[ei].scalar=&(system[ei*size_state+nrhos*size_rho]);
     }
+    SQUIDS_VERIF_EVENT("sq.evolve.end",this,(nx&&nrhos)?&(estate[0].rho[0][0]):nullptr,1,0);
   }else{
+    SQUIDS_VERIF_EVENT("sq.evolve.start",this,system.get(),0,sys.params==this);
     t+=dt;
     PreDerive(t);
+    SQUIDS_VERIF_EVENT("sq.evolve.end",this,(nx&&nrhos)?&(estate[0].rho[0][0]):nullptr,0,0);
   }
 }
 
